@@ -146,3 +146,227 @@ Proof.
   destruct (kind =? 2); [intros H; apply map_res_panic in H; eapply read_response_total; exact H|].
   destruct (kind =? 3); [apply read_packet_total|apply receive_total].
 Qed.
+
+(* ---------- progress, and fuel never runs out ---------- *)
+Lemma read_header_f_ok f : forall s h h' rest,
+  read_header_f f s h = Ok h' rest -> (length rest < length s)%nat.
+Proof.
+  induction f as [|f IH]; intros s h h' rest; cbn [read_header_f]; [discriminate|].
+  destruct (read_line s) as [kv r|e|] eqn:R; [|discriminate|discriminate].
+  apply read_line_ok in R as (_ & _ & P & _).
+  destruct (zlen kv =? 0); [intros H; inversion H; subst; exact P|].
+  destruct (parse_header_line kv) as [[|k v] ?|e|]; try discriminate; intros H; apply IH in H; lia.
+Qed.
+
+Lemma parse_header_line_err kv e : parse_header_line kv = Err e -> e = EMalformed.
+Proof.
+  unfold parse_header_line. destruct (index_byte COLON kv <? 0); [intros H; inversion H; reflexivity|].
+  destruct (slice kv 0 (index_byte COLON kv)) as [a|], (slice kv (index_byte COLON kv + 1) (zlen kv)) as [b|]; try discriminate.
+  destruct (zlen (canonical_kv a) =? 0); discriminate.
+Qed.
+Lemma read_line_err s e : read_line s = Err e -> e = EEof \/ e = ELineTooLong.
+Proof.
+  destruct s as [|c s]; [cbv; intros H; inversion H; tauto|]. rewrite read_line_unfold.
+  destruct (match split_lf (c :: s) with Some (raw, rest) => (strip_cr raw, rest) | None => (c :: s, []) end) as [l rest].
+  destruct (zlen l >? max_line); intros H; inversion H; tauto.
+Qed.
+
+Lemma read_header_f_fuel f : forall s h, (length s < f)%nat -> read_header_f f s h <> Err EFuel.
+Proof.
+  induction f as [|f IH]; intros s h F; [lia|]. cbn [read_header_f].
+  destruct (read_line s) as [kv r|e|] eqn:R; [| |discriminate].
+  - apply read_line_ok in R as (_ & _ & P & _).
+    destruct (zlen kv =? 0); [discriminate|].
+    destruct (parse_header_line kv) as [[|k v] ?|e|] eqn:PH; try discriminate; try (apply IH; lia).
+    apply parse_header_line_err in PH. subst e. discriminate.
+  - apply read_line_err in R as [-> | ->]; discriminate.
+Qed.
+
+Lemma read_body_ok h s body rest : read_body h s = Ok body rest ->
+  (length rest <= length s)%nat /\ zlen body <= max_body.
+Proof.
+  unfold read_body, read_body_lim. destruct (content_length h <=? 0) eqn:E0.
+  - intros H; inversion H; subst. rewrite zlen_nil. unfold max_body. split; lia.
+  - destruct (content_length h >? max_body) eqn:E1; [discriminate|].
+    destruct (zlen s <? content_length h) eqn:E2; [discriminate|].
+    intros H; inversion H; subst. clear H. split; [rewrite skipn_length; lia|].
+    rewrite take_n_firstn. unfold zlen in *. rewrite firstn_length. lia.
+Qed.
+
+Lemma read_request_ok url s q rest : read_request url s = Ok q rest -> (length rest < length s)%nat.
+Proof.
+  unfold read_request. destruct (read_line s) as [line s1|e|] eqn:R; try discriminate.
+  apply read_line_ok in R as (_ & _ & P & _).
+  destruct (parse_request_line url line) as [[[m u] p] ?|e|]; try discriminate.
+  unfold read_header. destruct (read_header_f (S (length s1)) s1 []) as [h s2|e|] eqn:H; try discriminate.
+  apply read_header_f_ok in H. destruct (read_body h s2) as [b s3|e|] eqn:B; try discriminate.
+  apply read_body_ok in B as [B _]. intros X; inversion X; subst. lia.
+Qed.
+Lemma read_response_ok s q rest : read_response s = Ok q rest -> (length rest < length s)%nat.
+Proof.
+  unfold read_response. destruct (read_line s) as [line s1|e|] eqn:R; try discriminate.
+  apply read_line_ok in R as (_ & _ & P & _).
+  destruct (parse_status_line line) as [[[m u] p] ?|e|]; try discriminate.
+  unfold read_header. destruct (read_header_f (S (length s1)) s1 []) as [h s2|e|] eqn:H; try discriminate.
+  apply read_header_f_ok in H. destruct (read_body h s2) as [b s3|e|] eqn:B; try discriminate.
+  apply read_body_ok in B as [B _]. intros X; inversion X; subst. lia.
+Qed.
+Lemma read_packet_ok cfg s ev rest : read_packet cfg s = Ok ev rest -> (length rest < length s)%nat.
+Proof.
+  unfold read_packet, read_packet_gen. destruct s as [|b0 [|b1 [|b2 [|b3 s']]]]; try discriminate.
+  destruct (negb (b0 =? DOLLAR)); [discriminate|]. destruct (zlen s' <? b2 * 256 + b3); [discriminate|].
+  destruct (find_chan cfg b1 0) as [i|]; [|discriminate].
+  assert (L : (length (skipn (Z.to_nat (b2 * 256 + b3)) s') < length (b0 :: b1 :: b2 :: b3 :: s'))%nat)
+    by (rewrite skipn_length; cbn [length]; lia).
+  destruct ((i mod 256 =? 0) || (i mod 256 =? 2)); [destruct (rtp_hdr_check _); try discriminate|];
+    intros X; inversion X; subst; exact L.
+Qed.
+
+Lemma map_res_ok {A B} (f : A -> B) r b rest : map_res f r = Ok b rest -> exists a, r = Ok a rest /\ b = f a.
+Proof. destruct r; cbn; try discriminate. intros H; inversion H; subst. eauto. Qed.
+
+Lemma receive_ok url cfg s ev rest : receive url cfg s = Ok ev rest -> (length rest < length s)%nat.
+Proof.
+  destruct s as [|c0 [|c1 [|c2 [|c3 s']]]]; try (rewrite receive_short; [discriminate|cbn; lia]).
+  rewrite receive_cons4. destruct (c0 =? DOLLAR); [apply read_packet_ok|].
+  destruct ((c0 =? 82) && (c1 =? 84) && (c2 =? 83) && (c3 =? 80)); intros H; apply map_res_ok in H as (a & H & _);
+    [eapply read_response_ok|eapply read_request_ok]; exact H.
+Qed.
+
+Lemma stepper_ok url kind cfg s ev rest : stepper url kind cfg s = Ok ev rest -> (length rest < length s)%nat.
+Proof.
+  unfold stepper. destruct (kind =? 1); [intros H; apply map_res_ok in H as (a & H & _); eapply read_request_ok; exact H|].
+  destruct (kind =? 2); [intros H; apply map_res_ok in H as (a & H & _); eapply read_response_ok; exact H|].
+  destruct (kind =? 3); [apply read_packet_ok|apply receive_ok].
+Qed.
+
+Section Loop.
+Variable step : bytes -> res event.
+Hypothesis step_progress : forall s ev rest, step s = Ok ev rest -> (length rest < length s)%nat.
+
+Lemma read_all_fuel f1 : forall f2 s, (length s < f1)%nat -> (length s < f2)%nat ->
+  read_all step f1 s = read_all step f2 s.
+Proof.
+  induction f1 as [|f1 IH]; intros f2 s F1 F2; [lia|]. destruct f2 as [|f2]; [lia|].
+  cbn [read_all]. destruct s as [|c s]; [reflexivity|].
+  destruct (step (c :: s)) as [ev rest|e|] eqn:E; try reflexivity.
+  apply step_progress in E. rewrite (IH f2 rest) by lia. reflexivity.
+Qed.
+
+Lemma read_all_no_fuel f : forall s, (length s < f)%nat -> snd (read_all step f s) <> FFuel.
+Proof.
+  induction f as [|f IH]; intros s F; [lia|]. cbn [read_all]. destruct s as [|c s]; [discriminate|].
+  destruct (step (c :: s)) as [ev rest|e|] eqn:E; try discriminate.
+  apply step_progress in E. specialize (IH rest ltac:(lia)).
+  destruct (read_all step f rest) as [evs fin]. exact IH.
+Qed.
+
+Lemma read_stream_cons s ev rest : step s = Ok ev rest ->
+  read_stream step s = let '(evs, fin) := read_stream step rest in ((ev, rest) :: evs, fin).
+Proof.
+  intros E. unfold read_stream. cbn [read_all]. destruct s as [|c s]; [apply step_progress in E; simpl in E; lia|].
+  rewrite E. pose proof (step_progress _ _ _ E).
+  rewrite (read_all_fuel (length (c :: s)) (S (length rest)) rest) by lia. reflexivity.
+Qed.
+End Loop.
+
+(* ---------- the dispatcher on written items ---------- *)
+Lemma not_rtsp_prefix m x :
+  is_prefix RTSP_ m = false -> ~ In SP m ->
+  match m ++ SP :: x with
+  | c0 :: c1 :: c2 :: c3 :: _ => (c0 =? 82) && (c1 =? 84) && (c2 =? 83) && (c3 =? 80)
+  | _ => false
+  end = false.
+Proof.
+  intros P S. unfold RTSP_ in P.
+  destruct m as [|a [|b [|c [|d m']]]]; cbn [app is_prefix] in *; unfold SP;
+    try (destruct x as [|x0 [|x1 [|x2 x3]]]; try reflexivity; lia).
+Qed.
+
+Lemma receive_as_request url cfg s :
+  4 <= zlen s ->
+  match s with c0 :: _ => c0 =? DOLLAR | [] => true end = false ->
+  match s with
+  | c0 :: c1 :: c2 :: c3 :: _ => (c0 =? 82) && (c1 =? 84) && (c2 =? 83) && (c3 =? 80)
+  | _ => false
+  end = false ->
+  receive url cfg s = map_res EvReq (read_request url s).
+Proof.
+  intros L D R. destruct s as [|c0 [|c1 [|c2 [|c3 s']]]]; rewrite ?zlen_cons, ?zlen_nil in L; try lia.
+  rewrite receive_cons4, D, R. reflexivity.
+Qed.
+
+Lemma receive_request url cfg q rest :
+  request_wf url q = true ->
+  receive url cfg (write_request q ++ rest) = map_res EvReq (read_request url (write_request q ++ rest)).
+Proof.
+  unfold request_wf. rewrite !andb_true_iff, !negb_true_iff.
+  intros [[[[[[[[Wm Wu] D] R] O] U] L] Wh] B].
+  destruct (token_wf_parts _ Wm) as [Nm Tm].
+  assert (Sm : ~ In SP (q_method q)) by (apply token_no_space; [exact Tm|reflexivity]).
+  pose proof (not_rtsp_prefix (q_method q)
+    (q_url q ++ SP :: RTSP10 ++ CRLF ++ write_header (set_cl (q_hdr q) (q_body q)) ++ q_body q ++ rest) R Sm) as NP.
+  assert (E : write_request q ++ rest =
+              q_method q ++ SP :: q_url q ++ SP :: RTSP10 ++ CRLF ++ write_header (set_cl (q_hdr q) (q_body q)) ++ q_body q ++ rest).
+  { unfold write_request. repeat (rewrite <- app_assoc || rewrite <- app_comm_cons). reflexivity. }
+  rewrite E. apply receive_as_request.
+  - rewrite zlen_app, zlen_cons, zlen_app, zlen_cons, zlen_app. change (zlen RTSP10) with 8.
+    pose proof (zlen_nonneg (q_method q)). pose proof (zlen_nonneg (q_url q)).
+    pose proof (zlen_nonneg (CRLF ++ write_header (set_cl (q_hdr q) (q_body q)) ++ q_body q ++ rest)). lia.
+  - destruct (q_method q) as [|m0 m']; [rewrite zlen_nil in Nm; lia|]. exact D.
+  - exact NP.
+Qed.
+
+Lemma receive_response url cfg p rest :
+  receive url cfg (write_response p ++ rest) = map_res EvResp (read_response (write_response p ++ rest)).
+Proof. unfold write_response. cbn [app RTSP10]. rewrite receive_cons4. reflexivity. Qed.
+
+Lemma receive_packet url cfg ch data rest :
+  pack_wf cfg ch data = true ->
+  receive url cfg (write_packet cfg ch data ++ rest) = read_packet cfg (write_packet cfg ch data ++ rest).
+Proof.
+  unfold pack_wf, write_packet. rewrite !andb_true_iff. intros [[[[C0 C4] L] W] Hh].
+  destruct (nth_error cfg (Z.to_nat ch)) as [w|]; [|discriminate].
+  rewrite !andb_true_iff in W. destruct W as [[W0 W255] F].
+  replace ((w <? 0) || (w >? 255)) with false by lia. cbn [app]. rewrite receive_cons4. reflexivity.
+Qed.
+
+Theorem receive_exact url cfg it rest :
+  item_wf url cfg it = true ->
+  receive url cfg (encode cfg it ++ rest) = Ok (norm_item it) rest.
+Proof.
+  destruct it as [q|p|ch d]; cbn [item_wf encode norm_item]; intros W.
+  - rewrite receive_request by exact W. rewrite request_roundtrip by exact W. reflexivity.
+  - rewrite receive_response. rewrite response_roundtrip by exact W. reflexivity.
+  - rewrite receive_packet by exact W. apply frame_roundtrip; exact W.
+Qed.
+
+(* ---------- the stream theorem ---------- *)
+(* what the read loop must produce on the concatenation: every item's normal form,
+   each with exactly the encodings of the later items (and the tail) left to read *)
+Fixpoint expected (cfg : list Z) (items : list item) (tail : bytes) : list (event * bytes) :=
+  match items with
+  | [] => []
+  | it :: l => (norm_item it, concat_items cfg l ++ tail) :: expected cfg l tail
+  end.
+
+Theorem stream_reader_exact_tail url cfg items tail :
+  forallb (item_wf url cfg) items = true ->
+  read_stream (receive url cfg) (concat_items cfg items ++ tail) =
+  let '(evs, fin) := read_stream (receive url cfg) tail in (expected cfg items tail ++ evs, fin).
+Proof.
+  induction items as [|it l IH]; intros W.
+  - cbn [concat_items expected app]. destruct (read_stream (receive url cfg) tail); reflexivity.
+  - cbn [forallb] in W. apply andb_true_iff in W as [Wi Wl].
+    cbn [concat_items expected]. rewrite <- app_assoc.
+    rewrite (read_stream_cons _ (receive_ok url cfg) _ _ _ (receive_exact url cfg it _ Wi)).
+    rewrite (IH Wl). destruct (read_stream (receive url cfg) tail) as [evs fin]. reflexivity.
+Qed.
+
+Theorem stream_reader_exact url cfg items :
+  forallb (item_wf url cfg) items = true ->
+  read_stream (receive url cfg) (concat_items cfg items) = (expected cfg items [], FDone).
+Proof.
+  intros W. pose proof (stream_reader_exact_tail url cfg items [] W) as H.
+  rewrite app_nil_r in H. rewrite H. cbn. rewrite app_nil_r. reflexivity.
+Qed.
